@@ -110,6 +110,23 @@ class EnumArgs(Semantics):
         return dict(dialect=d.choice(['new', 'old']), specs=specs, matchers=ms)
 
 
+class ValueKinds(Semantics):
+    """dedicated class: arguments of different kinds with colliding values (Int 7, Fd 7, fixed 7.0, "7", object id 7)
+    x value-focused matchers: cross-kind confusion of value matchers"""
+    name = 'value-kinds'
+    PROFILE = dict(reuse=0.5, weights=dict(delete=4, bind=8, message=14, sync=6, kinds=60, enum=8))
+
+    def examples(self, tier):
+        return 170 if tier == 'quick' else 14 * 1700
+
+    def gen(self, d, tier):
+        specs = histgen.history(d, nconn=d.int(1, 2), nmsg=d.int(8, 24), profile=self.PROFILE)
+        V = rm.vocab(specs)
+        g = rm.Gen(d, V, self.depth(tier), focus='args')
+        ms = [dict(ast=g.top(), deco=[d.int(0, 99) for _ in range(d.int(4, 12))]) for _ in range(6)]
+        return dict(dialect=d.choice(['new', 'old']), specs=specs, matchers=ms)
+
+
 class C05(Prop):
     id = 'C05'
     rule = ('each case = a generated multi-connection history run through the real pipeline (the message universe) + 6 matcher ASTs drawn from '
@@ -121,7 +138,7 @@ class C05(Prop):
     assumptions = ['reference semantics = DESIGN appendix A (written from matchers.md and the statement)',
                    'grammar bounds: no empty alternatives/exclusion lists, no * inside exclusions, no object labels as argument values, '
                    'string atoms without quotes/brackets/parentheses/commas/!']
-    stages = [Semantics(), EnumArgs()]
+    stages = [Semantics(), EnumArgs(), ValueKinds()]
 
 
 PROP = C05()
